@@ -635,6 +635,9 @@ func floatEq(a, b *Node) bool {
 	if math.IsNaN(a.F) || math.IsNaN(b.F) {
 		return math.IsNaN(a.F) && math.IsNaN(b.F)
 	}
+	if a.F == 0 && b.F == 0 && a.Prec == 0 && b.Prec == 0 && math.Signbit(a.F) != math.Signbit(b.F) {
+		return false // the sign of a zero is part of the value
+	}
 	if a.F32 || b.F32 {
 		return float32(a.F) == float32(b.F)
 	}
